@@ -2,8 +2,8 @@
    validate : tables -> install -> heap -> settings -> heap * res settings is the by-reference model of
    HandshakeSettings.validate() (Model/C19_Settings.v), synchronised with /repo after the repairs
    851aa29 (filter a copy of cipherImplementations), 8cc633e (forbidden delegated-credential
-   algorithms rejected), c50a338 (ticketKeys must fit ticketCipher), f81c02a (versions clipped to
-   [minVersion, maxVersion]).  All theorems quantify over ALL
+   algorithms rejected), c50a338 (ticketKeys must fit ticketCipher), f81c02a + 0b9340a (versions clipped to
+   [min(minVersion,(3,3)), maxVersion]).  All theorems quantify over ALL
    domain tables T, installation flags I, heaps h and objects s (lists of any length); the only
    hypothesis on the object is well-formedness wf h s (it has its 22 list attributes and they are
    allocated) and, for the domain theorems, `typed` (values have the documented Python type). *)
@@ -66,40 +66,29 @@ Example frame_aliased_object :
 Proof. exact alias_regression. Qed.
 
 (* ================= 2. "yields the same result when applied again to its own output" ========= *)
-(* Full statement: for every well-formed object that validates, validating the result succeeds and gives an
-   object with the same observable contents (view = contents of every list attribute + every scalar). *)
-Definition validate_idempotent_statement : Prop :=
+(* FULL: for every well-formed object that validates, validating the result succeeds and gives an object
+   with the same observable contents (the second call allocates new lists again, so equality is on the
+   view = contents of every list attribute + every scalar, not on locations).
+   History: before 851aa29 proved only under impl_unaliased (no other attribute bound to the list object of
+   cipherImplementations).  Between f81c02a and 0b9340a it was REFUTED (validate_idempotent_refuted:
+   `versions` was clipped at minVersion after the TLS 1.3-only group rule had been evaluated on the
+   unclipped list; with minVersion = (3,4) validate(validate(s)) raised ValueError) and proved only under
+   clip_stable / minVersion <= (3,3).  With the clip bound min(minVersion, (3,3)) every accepted object is
+   stable (Proofs.C19_Idem.clip_stable_ok), so no hypothesis remains. *)
+Theorem validate_idempotent :
   forall T I h s h1 s1, wf h s = true -> validate T I h s = (h1, Ok s1) ->
-    exists h2 s2, validate T I h1 s1 = (h2, Ok s2) /\ view h2 s2 = view h1 s1.
-
-(* FALSE since /repo f81c02a (it was a theorem for 851aa29..f81c02a^): `versions` is clipped to
-   [minVersion, maxVersion] after _sanityCheckECDHSettings has examined the unclipped list, so for
-   minVersion = (3,4) the result is TLS 1.3-only with curves the TLS 1.3-only rule forbids, and
-   validate(validate(s)) raises ValueError. *)
-Theorem validate_idempotent_refuted : ~ validate_idempotent_statement.
-Proof. exact idem_refuted. Qed.
-
-Example validate_idempotent_refuted_witness :
-  wf ex_heap_k1 ex_settings_13 = true /\
-  match validate std_tables no_backends ex_heap_k1 ex_settings_13 with
-  | (h1, Ok s1) => G h1 s1 F_versions = [VPair 3 4] /\ snd (validate std_tables no_backends h1 s1) = Err ValueError
-  | _ => False
-  end.
-Proof. exact idem_witness. Qed.
-
-(* Proved part: whenever the TLS 1.3-only group rule also holds for the CLIPPED versions list
-   (clip_stable, Proofs/C19_Idem.v) -- in particular whenever TLS 1.2 or lower stays enabled. *)
-Theorem validate_idempotent_partial :
-  forall T I h s h1 s1, wf h s = true -> clip_stable T (lists h s) (sc s) = true ->
-    validate T I h s = (h1, Ok s1) ->
     exists h2 s2, validate T I h1 s1 = (h2, Ok s2) /\ view h2 s2 = view h1 s1.
 Proof. exact validate_idempotent_heap. Qed.
 
-Theorem validate_idempotent_when_tls12_enabled :
-  forall T I h s h1 s1, wf h s = true -> ver_le (minVersion (sc s)) (3, 3) = true ->
-    validate T I h s = (h1, Ok s1) ->
-    exists h2 s2, validate T I h1 s1 = (h2, Ok s2) /\ view h2 s2 = view h1 s1.
-Proof. exact validate_idempotent_heap_tls12. Qed.
+(* the object that refuted idempotence during the f81c02a interlude *)
+Example idempotent_former_witness :
+  wf ex_heap_k1 ex_settings_13 = true /\
+  match validate std_tables no_backends ex_heap_k1 ex_settings_13 with
+  | (h1, Ok s1) => G h1 s1 F_versions = [VPair 3 4; VPair 3 3] /\
+                   is_ok (snd (validate std_tables no_backends h1 s1)) = true
+  | _ => False
+  end.
+Proof. exact idem_regression. Qed.
 
 (* the by-reference model computes the pure function cvalidate on contents: same outcome, same
    exception class, same contents -- for every well-formed object, aliased or not *)
@@ -111,22 +100,19 @@ Theorem validate_refines_contents :
     end.
 Proof. exact validate_refines_contents_lemma. Qed.
 
-Theorem validate_contents_idempotent_partial :
-  forall T I v c v', List.length v = NF -> clip_stable T v c = true ->
-    cvalidate T I v c = Ok v' -> cvalidate T I v' c = Ok v'.
+Theorem validate_contents_idempotent :
+  forall T I v c v', List.length v = NF -> cvalidate T I v c = Ok v' -> cvalidate T I v' c = Ok v'.
 Proof. exact cvalidate_idem. Qed.
 
 Example idempotent_hypotheses_satisfiable :
   wf ex_heap (with_scalars ex_settings ex_scalars_tls11) = true /\
-  is_ok (snd (validate std_tables no_backends ex_heap (with_scalars ex_settings ex_scalars_tls11))) = true /\
-  clip_stable std_tables (lists ex_heap (with_scalars ex_settings ex_scalars_tls11)) ex_scalars_tls11 = true /\
-  ver_le (minVersion ex_scalars_tls11) (3, 3) = true.
+  is_ok (snd (validate std_tables no_backends ex_heap (with_scalars ex_settings ex_scalars_tls11))) = true.
 Proof. exact tls11_validates. Qed.
 
 (* ================= 3. "contains only algorithms the running installation supports" ============ *)
 (* supported_only T I (Spec/C19_Domain.v): every name of the result is in its table; no back-end the
    installation lacks (I: M2Crypto, pycrypto), no 3DES without an implementation, no SHA-2/AEAD MAC when
-   maxVersion < TLS 1.2, every entry of `versions` inside [minVersion, maxVersion].  Parametric in the
+   maxVersion < TLS 1.2, every entry of `versions` inside [min(minVersion,(3,3)), maxVersion].  Parametric in the
    tables (brotli/zstd/ML-KEM/ML-DSA availability only changes the generated tables) and in I.  FULL. *)
 Theorem validated_supported_only :
   forall T I h s h' s', wf h s = true -> validate T I h s = (h', Ok s') ->
